@@ -113,52 +113,98 @@ func (s *Solver) send(txt string) {
 	}
 }
 
-// define emits definitions for every not-yet-defined node reachable from t.
-func (s *Solver) define(t *Term, sb *strings.Builder) {
-	if t.Op == OpConst || s.defined[t.ID] {
-		return
-	}
-	// iterative post-order to avoid deep recursion on long chains
+// declare emits declarations for the not-yet-declared variables / UFs among
+// the nodes, and returns the non-leaf nodes reachable from ts in topological
+// order (children first).
+func (s *Solver) topo(ts []*Term, sb *strings.Builder) []*Term {
+	seen := map[int]bool{}
+	var order []*Term
 	type fr struct {
 		t *Term
 		i int
 	}
-	st := []fr{{t, 0}}
-	for len(st) > 0 {
-		f := &st[len(st)-1]
-		if f.t.Op == OpConst || s.defined[f.t.ID] {
-			st = st[:len(st)-1]
+	for _, root := range ts {
+		if seen[root.ID] {
 			continue
 		}
-		if f.i < len(f.t.Args) {
-			a := f.t.Args[f.i]
-			f.i++
-			if a.Op != OpConst && !s.defined[a.ID] {
-				st = append(st, fr{a, 0})
+		st := []fr{{root, 0}}
+		for len(st) > 0 {
+			f := &st[len(st)-1]
+			if f.i == 0 && seen[f.t.ID] {
+				st = st[:len(st)-1]
+				continue
 			}
-			continue
-		}
-		x := f.t
-		s.defined[x.ID] = true
-		switch x.Op {
-		case OpVar:
-			fmt.Fprintf(sb, "(declare-const %s %s)\n", varSMT(x), sortName(x.W))
-		case OpUF:
-			if !s.declUF[x.Name] {
-				s.declUF[x.Name] = true
-				sig := s.ctx.ufs[x.Name]
-				var ps []string
-				for _, w := range sig[:len(sig)-1] {
-					ps = append(ps, sortName(w))
+			if f.i < len(f.t.Args) {
+				a := f.t.Args[f.i]
+				f.i++
+				if !seen[a.ID] {
+					st = append(st, fr{a, 0})
 				}
-				fmt.Fprintf(sb, "(declare-fun %s (%s) %s)\n", smtName(x.Name), strings.Join(ps, " "), sortName(sig[len(sig)-1]))
+				continue
 			}
-			fmt.Fprintf(sb, "(define-fun t%d () %s %s)\n", x.ID, sortName(x.W), body(x))
-		default:
-			fmt.Fprintf(sb, "(define-fun t%d () %s %s)\n", x.ID, sortName(x.W), body(x))
+			x := f.t
+			st = st[:len(st)-1]
+			if seen[x.ID] {
+				continue
+			}
+			seen[x.ID] = true
+			switch x.Op {
+			case OpConst:
+			case OpVar:
+				if !s.defined[x.ID] {
+					s.defined[x.ID] = true
+					fmt.Fprintf(sb, "(declare-const %s %s)\n", varSMT(x), sortName(x.W))
+				}
+			default:
+				if x.Op == OpUF && !s.declUF[x.Name] {
+					s.declUF[x.Name] = true
+					sig := s.ctx.ufs[x.Name]
+					var ps []string
+					for _, w := range sig[:len(sig)-1] {
+						ps = append(ps, sortName(w))
+					}
+					fmt.Fprintf(sb, "(declare-fun %s (%s) %s)\n", smtName(x.Name), strings.Join(ps, " "), sortName(sig[len(sig)-1]))
+				}
+				order = append(order, x)
+			}
 		}
-		st = st[:len(st)-1]
 	}
+	return order
+}
+
+// assertion renders the conjunction as one assert with a let-chain over the
+// shared nodes (nested 0-ary define-funs make z3 re-expand bodies on every use,
+// which was measured to dominate the run time).
+func (s *Solver) assertion(conj []*Term, sb *strings.Builder) {
+	var live []*Term
+	for _, t := range conj {
+		if !t.IsTrue() {
+			live = append(live, t)
+		}
+	}
+	var decl strings.Builder
+	order := s.topo(live, &decl)
+	sb.WriteString(decl.String())
+	sb.WriteString("(assert ")
+	for _, x := range order {
+		fmt.Fprintf(sb, "(let ((t%d %s)) ", x.ID, body(x))
+	}
+	switch len(live) {
+	case 0:
+		sb.WriteString("true")
+	case 1:
+		sb.WriteString(ref(live[0]))
+	default:
+		sb.WriteString("(and")
+		for _, t := range live {
+			sb.WriteString(" " + ref(t))
+		}
+		sb.WriteString(")")
+	}
+	for range order {
+		sb.WriteString(")")
+	}
+	sb.WriteString(")\n")
 }
 
 // Check decides satisfiability of the conjunction of conj. If wantModel and the
@@ -192,15 +238,15 @@ func (s *Solver) Check(conj []*Term, wantModel bool) (Result, map[string]uint64)
 			s.NUnsat++
 			return Unsat, nil
 		}
-		s.define(t, &sb)
 	}
+	var as strings.Builder
+	s.assertion(conj, &as)
+	// declarations stay at the base level, the assertion lives in the scope
+	txt := as.String()
+	i := strings.Index(txt, "(assert ")
+	sb.WriteString(txt[:i])
 	sb.WriteString("(push 1)\n")
-	for _, t := range conj {
-		if t.IsTrue() {
-			continue
-		}
-		fmt.Fprintf(&sb, "(assert %s)\n", ref(t))
-	}
+	sb.WriteString(txt[i:])
 	sb.WriteString("(check-sat)\n")
 	s.send(sb.String())
 	line := s.readLine()
@@ -377,12 +423,7 @@ func tokenize(s string) []string {
 func Script(ctx *Ctx, conj []*Term) string {
 	tmp := &Solver{ctx: ctx, defined: map[int]bool{}, declUF: map[string]bool{}}
 	var sb strings.Builder
-	for _, t := range conj {
-		tmp.define(t, &sb)
-	}
-	for _, t := range conj {
-		fmt.Fprintf(&sb, "(assert %s)\n", ref(t))
-	}
+	tmp.assertion(conj, &sb)
 	sb.WriteString("(check-sat)\n")
 	return sb.String()
 }
